@@ -111,6 +111,11 @@ func (ch *Channel) Invoke(ctx context.Context, methodName string, req, resp inte
 	case <-respCh:
 	}
 	if err != nil {
+		if ctxErr := ctx.Err(); ctxErr != nil {
+			// whatever I/O error the cancellation provoked while the body
+			// was being read, the call ended because its context did
+			return statusFromContextError(ctxErr)
+		}
 		return err
 	}
 	return codec.Unmarshal(b, resp)
